@@ -56,7 +56,17 @@ def fold_wrapping_data_maps(ctx, keycls, getter, setter):
     g, st = flat(keycls, getter), flat(keycls, setter)
     try:
         selfv = {c: 'col:' + c for c in cols}
-        selfv['__attrs__'] = tuple(cols)
+        # class-level constant tables of the class (field-name tables that drive the flattening) are attributes of the instance too
+        consts = {}
+        for st_ in keycls.body:
+            if isinstance(st_, ast.Assign) and len(st_.targets) == 1 and isinstance(st_.targets[0], ast.Name) and st_.targets[0].id not in cols \
+                    and isinstance(st_.value, (ast.Tuple, ast.List, ast.Constant, ast.Dict, ast.Set)):
+                try:
+                    consts[st_.targets[0].id] = Folder(steps=5000).ev(st_.value, {})
+                except (Unfoldable, Raised):
+                    pass
+        selfv.update(consts)
+        selfv['__attrs__'] = tuple(cols) + tuple(consts)
         f = Folder(steps=50000)
         got = f.call_method(g, selfv, [], {})
         gmap = {}
@@ -77,7 +87,8 @@ def fold_wrapping_data_maps(ctx, keycls, getter, setter):
             return {k: (tokens(v, path + (k,)) if isinstance(v, dict) else 'tok:' + '/'.join(path + (k,))) for k, v in d.items()}
         doc = tokens(got, ())
         selfs = {c: None for c in cols}
-        selfs['__attrs__'] = tuple(cols)
+        selfs.update(consts)
+        selfs['__attrs__'] = tuple(cols) + tuple(consts)
         f2 = Folder(steps=50000)
         f2.call_method(st, selfs, [doc], {})
         smap = {}
